@@ -4,6 +4,7 @@ import ElaVerif.Lemmas.Tx
 import ElaVerif.Lemmas.WireSchemas
 import ElaVerif.Lemmas.WireTokens
 import ElaVerif.Gen.C02
+import ElaVerif.Model.P2PFrame
 /-!
 # C02 — decoding untrusted bytes never panics and allocates at most K·|input| + C
 
@@ -147,5 +148,81 @@ theorem C02_gen_tokens_b :
 theorem C02_gen_tokens_c :
     (WireTokens.expected.drop 40).all (WireTokens.agree Gen.C02.streams) = true := by
   decide +kernel
+
+/-! ## message level: `p2p.ReadMessage` + `CheckAndCreateMessage` (model: `P2PFrame.readMessage`, shared with C35) -/
+
+open ElaVerif.P2PFrame in
+theorem lookup_mem {table : List (P2PFrame.Bytes × Nat)} {cmd : P2PFrame.Bytes} {m : Nat}
+    (h : lookup table cmd = some m) : (cmd, m) ∈ table := by
+  induction table with
+  | nil => simp [lookup] at h
+  | cons e rest ih =>
+    obtain ⟨c, m'⟩ := e
+    simp only [lookup] at h
+    by_cases hc : c = cmd
+    · simp only [hc, if_true, Option.some.injEq] at h
+      subst h; subst hc; exact List.mem_cons_self
+    · simp only [hc, if_false] at h
+      exact List.mem_cons_of_mem _ (ih h)
+
+open ElaVerif.P2PFrame in
+/-- The payload buffer `make([]byte, hdr.Length)` is allocated only for a declared length that is at
+    most the maximum of the command named in the header: whatever the stream, the reader allocates at
+    most the largest per-command maximum, and nothing for an oversize declaration, an unknown
+    command, a wrong magic or a bad header. -/
+theorem C02_msg_alloc_bound {α : Type} (H : P2PFrame.Bytes → P2PFrame.Bytes)
+    (table : List (P2PFrame.Bytes × Nat)) (decode : P2PFrame.Bytes → P2PFrame.Bytes → Option α)
+    (magic : Nat) (s : P2PFrame.Bytes) (M : Nat) (hM : ∀ e ∈ table, e.2 ≤ M) :
+    (readMessage H table decode magic s).alloc ≤ M := by
+  unfold readMessage
+  split
+  · exact Nat.zero_le _
+  · split
+    · exact Nat.zero_le _
+    · rename_i hdr _
+      split
+      · exact Nat.zero_le _
+      · unfold readBody
+        split
+        · exact Nat.zero_le _
+        · rename_i max hl
+          have hmax : max ≤ M := hM _ (lookup_mem hl)
+          split
+          · exact Nat.zero_le _
+          · rename_i hle
+            have : hdr.length ≤ M := by omega
+            split
+            · exact this
+            · simp only []
+              split
+              · exact this
+              · split <;> exact this
+
+open ElaVerif.P2PFrame in
+/-- an oversize declaration is refused before anything is allocated -/
+theorem C02_msg_oversize_allocates_nothing {α : Type} (H : P2PFrame.Bytes → P2PFrame.Bytes)
+    (table : List (P2PFrame.Bytes × Nat)) (decode : P2PFrame.Bytes → P2PFrame.Bytes → Option α)
+    (hdr : Header) (tail : P2PFrame.Bytes) (max : Nat) (hl : lookup table hdr.getCMD = some max)
+    (hbig : max < hdr.length) : (readBody H table decode hdr tail).alloc = 0 := by
+  unfold readBody
+  simp [hl, hbig]
+
+/-- the guards of `CheckAndCreateMessage` / `CheckAndCreateTxMessage` (regenerated): the declared length
+    is compared with the message type's `MaxLength()` alone, before the payload buffer is made -/
+theorem C02_gen_msg_guards :
+    Gen.C02.msgGuards =
+      ["CheckAndCreateMessage: if hdr.Length > message.MaxLength()",
+       "CheckAndCreateMessage: guard-before-make true",
+       "CheckAndCreateTxMessage: if hdr.Length > txMessage.MaxLength()",
+       "CheckAndCreateTxMessage: guard-before-make true"] := by decide
+
+/-- the per-command maxima (asked of the real message types): all at most 80 000 000, and the ones
+    above `p2p.MaxMessagePayload` (32 MiB, enforced by `WriteMessage` only) are the two DPoS bulk
+    responses — the `C` of the message-level bound is 80 MB on the DPoS network, 18 MB on the main one -/
+theorem C02_gen_msg_max :
+    (Gen.C02.msgMax_elanet.all fun e => decide (e.2 ≤ 18000000)) = true ∧
+    (Gen.C02.msgMax_dpos.all fun e => decide (e.2 ≤ 80000000)) = true ∧
+    ((Gen.C02.msgMax_elanet ++ Gen.C02.msgMax_dpos).filter fun e => decide (Gen.C02.maxMessagePayload < e.2)).map (·.1)
+      = ["res_blc", "res_con"] := by decide
 
 end ElaVerif.C02
